@@ -1,0 +1,9 @@
+//go:build !verif
+
+package bigbuff
+
+import "sync"
+
+// verifHookBeforeCondWait is a scheduling hook for the verification harness (see zz_hooks_verif.go); without
+// the verif build tag it does nothing and is inlined away.
+func verifHookBeforeCondWait(*sync.Cond) {}
